@@ -67,6 +67,8 @@ type TreeShapeListener struct {
 	rest_queryparams_len  []int
 	rest_urlparams_len    []int
 	http_path_query_param string
+	typemapStack          []map[string]*sysl.Type // field maps of the enclosing types of a nested type
+	fieldnameStack        [][]string
 	stmt_scope            []interface{} // Endpoint, if, if_else, loop
 	stmt_scope_last       []*sysl.Statement // last statement of each scope when it was entered
 	expr_stack            []*sysl.Expr
@@ -762,7 +764,12 @@ func (s *TreeShapeListener) EnterTable_def(ctx *parser.Table_defContext) {
 // EnterTable is called when production table is entered.
 func (s *TreeShapeListener) EnterTable(ctx *parser.TableContext) {
 	s.currentTypePath.Push(MustUnescape(ctx.Name_str().GetText()))
+	// a type may be declared inside another one: the enclosing type's fields are set aside and
+	// taken up again when the nested type ends
+	s.typemapStack = append(s.typemapStack, s.typemap)
+	s.fieldnameStack = append(s.fieldnameStack, s.fieldname)
 	s.typemap = map[string]*sysl.Type{}
+	s.fieldname = []string{}
 
 	types := s.currentApp().Types
 	if existing, ok := types[s.currentTypePath.Get()]; ok {
@@ -855,6 +862,13 @@ func (s *TreeShapeListener) ExitTable(ctx *parser.TableContext) {
 	s.currentTypePath.Pop()
 	s.fieldname = []string{}
 	s.typemap = nil
+	if n := len(s.typemapStack); n > 0 {
+		s.typemap, s.typemapStack = s.typemapStack[n-1], s.typemapStack[:n-1]
+		s.fieldname, s.fieldnameStack = s.fieldnameStack[n-1], s.fieldnameStack[:n-1]
+		if s.fieldname == nil {
+			s.fieldname = []string{}
+		}
+	}
 }
 
 func (s *TreeShapeListener) applyAnnotations(
